@@ -32,3 +32,18 @@ class Rule:
         self.floor = floor     # minimum number of decided (ok|violation) instances, counted by hand
         self.doc = doc
         self.configs = configs
+
+
+def shared(fn, from_rid, to_rid):
+    """Use another property's rule as a rule of this property: results are re-labelled (rule id and key prefix), so each
+    property's evidence and known-findings keys stay self-contained."""
+    fp, tp = from_rid.split(".")[0], to_rid.split(".")[0]
+
+    def run(F):
+        out = []
+        for r in fn(F):
+            r = R(to_rid, tp + "/" + to_rid.split(".")[1] + r["key"][len(fp) + 2:] if r["key"].startswith(fp + "/") else r["key"],
+                  r["status"], r["loc"], r["msg"], **r["data"])
+            out.append(r)
+        return out
+    return run
